@@ -17,8 +17,9 @@ package store
 // converts exactly that reservation into a verified entry or leaves the token untouched.
 //@ func CAStore.addToMemoryCache
 //@   requires mcshape(s) && !s.config.SkipHashVerification
+//@   unknown_calls_modify every aws.WriteAtBuffer.buf
 //@   requires holds_token: s.memCache.held >= size
-//@   modifies s.memCache.held, map s.memCache.entries, s.clk.now, every list.Element.list, every list.List.len, every list.List.hi
+//@   modifies s.memCache.held, map s.memCache.entries, s.clk.now, every list.Element.list, every list.List.len, every list.List.hi, every aws.WriteAtBuffer.buf
 //@   assert metainfo_describes_entry: at BlobMemoryCache.Add#0 :: entry.MetaInfo != nil && entry.Name == name && entry.MetaInfo.info.Name == name && entry.MetaInfo.info.Length == len(entry.Data) && len(entry.MetaInfo.info.PieceSums) == npieces(len(entry.Data), pieceLength)
 //@   ensures consumed: result == nil ==> s.memCache.held == old(s.memCache.held) - size
 //@   ensures untouched_on_error: result != nil ==> s.memCache.held == old(s.memCache.held)
